@@ -8,7 +8,7 @@ REPO = os.environ.get("VERIF_REPO", "/repo")
 TARGET = os.path.join(VERIF, "harness", "target")
 
 SYM = {"map": "|>", "and_then": "=>", "or_else": "<=", "map_err": "!>", "then": "->",
-       "inspect": "??", "or": "<|", "dot": "..", "filter": "?>"}
+       "inspect": "??", "or": "<|", "dot": "..", "filter": "?>", "job": "->"}
 
 ALIASES = {"join_spawn": "spawn", "try_join_spawn": "try_spawn",
            "join_async_spawn": "async_spawn", "try_join_async_spawn": "try_async_spawn"}
@@ -72,6 +72,7 @@ def closure0(P, it, b):
         "map_err": f"|e: rt::Fail| rt::e({i}, e)",
         "then": f"|r: rt::Res| rt::t({i}, r)",
         "inspect": f"|r: &rt::Res| rt::i({i}, r)",
+        "job": f"|r: rt::Res| rt::job({i}, r)",      # lazy_branches(false) + threads: the branch evaluates to the closure its thread runs
     }[op]
 
 
